@@ -283,6 +283,29 @@ def Pub.withdraw (p : Pub) (name : Nat) : Pub :=
   if p.set.contains name then Pub.publishOp { p with set := p.set.filter (· ≠ name) } (.remove name)
   else p
 
+/-- A readvertise command Interest as `readvertiseOnInterest` (dv/dv/readvertise.go) looks at it: the
+    number of name components, the module and verb components, and the name carried by the
+    ControlParameters component (`none`: the component does not parse or carries no Name). -/
+structure RvCmd where
+  comps : Nat
+  module : String
+  verb : String
+  name : Option Nat
+deriving Repr
+
+/-- `readvertiseOnInterest`: a name of exactly six components (/localhost/nlsr/rib/<verb>/<params>/
+    <digest>), module `rib`, parameters that carry a name, verb `register` → `Announce`, `unregister` →
+    `Withdraw`, answered 200; anything else is answered 400 and changes nothing. -/
+def Pub.readvertise (p : Pub) (c : RvCmd) : Pub × Nat :=
+  if c.comps != 6 then (p, 400)
+  else if c.module != "rib" then (p, 400)
+  else match c.name with
+    | none => (p, 400)
+    | some n =>
+      if c.verb == "register" then (p.announce n, 200)
+      else if c.verb == "unregister" then (p.withdraw n, 200)
+      else (p, 400)
+
 /-- what a peer has outstanding -/
 inductive Want where
   | snap
